@@ -21,7 +21,8 @@
      TXT AAAA SRV; IN CH HS) in any mix of upper and lower case, and `TYPEnnn` / `CLASSnnn`;
    * RDATA (`C23_rdata_partial`): `\# len hex` for any class and type, checked against
      `Rdata::validate`; and the typed syntaxes of A (IN), NS MD MF CNAME MB MG MR PTR (one name),
-     MX, SOA, MINFO, SRV (IN), TXT, HINFO — names absolute, relative or `@`, in any octet forms;
+     MX, SOA, MINFO, SRV (IN), TXT, HINFO, AAAA (IN; eight hexadecimal groups written in full) —
+     names absolute, relative or `@`, in any octet forms;
      character-strings quoted or unquoted, each octet raw, `\X` or `\DDD`, with raw newlines inside
      quotes; all with the lines they span;
    * gaps and line ends (`C23_gaps`): between fields any mix of blanks, `(`, `)` and — inside
@@ -38,8 +39,8 @@
    * whole files of such entries: exactly the denoted records, in order, with line numbers
      (`C23_records_partial`).
   NOT PROVED (the gap; the name says `_partial`)
-     the typed RDATA syntaxes of AAAA, WKS and Chaosnet A (not in the presentation AST: in the
-     subset they can be written in `\#` form); parentheses (and therefore line ends) inside
+     AAAA addresses written with `::` or an IPv4 suffix, the typed RDATA syntaxes of WKS and
+     Chaosnet A (not in the presentation AST: in the subset they can be written in `\#` form); parentheses (and therefore line ends) inside
      directive lines — there the fields are separated by blanks only; a last line without
      newline.  These are covered on every run by the correspondence
      oracle, which is independent of these proofs: the harness's pretty-printer renders random
@@ -120,7 +121,7 @@ theorem C23_generic_rdata (ctx : Ctx) (cls ty : Nat) (h41 : ty ≠ 41) (h250 : t
   parseRdata_generic ctx cls ty h41 h250 sep rd ws cmt r hne hsep hlen hvalid hws hc line
 
 /-- **RDATA**, generic or typed (the kinds of `PRdata`: `\#`, A, one-name types, MX, SOA, MINFO,
-    SRV, TXT, HINFO), with any well-formed gaps — blanks, parentheses, line ends and comments
+    SRV, TXT, HINFO, AAAA), with any well-formed gaps — blanks, parentheses, line ends and comments
     inside parentheses — before (`G 0`), inside (`G (i+1)`) and after it (`tg`), up to the end of
     the line (LF or CRLF): the text is read as the RDATA it denotes; the line count advances by
     the line ends inside gaps, names and strings plus one, and the parentheses are closed.
@@ -187,6 +188,7 @@ private theorem mSrv : WFType (.mnemonic [83, 114, 118] 33) := ⟨"SRV", by deci
 private theorem mA : WFType (.mnemonic [97] 1) := ⟨"A", by decide, by decide +kernel⟩
 private theorem mTxt : WFType (.mnemonic [116, 120, 116] 16) := ⟨"TXT", by decide, by decide +kernel⟩
 private theorem mHinfo : WFType (.mnemonic [72, 105, 110, 102, 111] 13) := ⟨"HINFO", by decide, by decide +kernel⟩
+private theorem mAaaa : WFType (.mnemonic [97, 65, 97, 65] 28) := ⟨"AAAA", by decide, by decide +kernel⟩
 private theorem mMinfo : WFType (.mnemonic [77, 73, 78, 70, 79] 14) := ⟨"MINFO", by decide, by decide +kernel⟩
 
 private def nA : PName := .rel [] [(97, .raw)]
@@ -200,7 +202,7 @@ private def sD : PString := ⟨false, [(100, .dec)]⟩
     `$ORIGIN t.¶` `a\.b.\010c. iN 5 TYPE1 \# 4 01020304 ;x¬` `→¬` ` →TYPE16→\#(2;h¶ 0161)¶` `$TTL 9¬`
     `w CLASS3 TYPE99 \# 0¶` `@ Ns a¶` ` mx 10 m\\\¶.\120.¶` ` SOA @ a ( 1 ;s¬ 2¶→3 4 4294967295 ) ;d¶`
     `a→( 7;¶→iN ) Srv 1 2 3 @¶` ` MINFO a m\\\¶.\120. ;¶` ` a (192.0.2.1)¬` ` (txt "a¶b\"" c\;d¬ \100)¶`
-    ` Hinfo "" \100¶` `$INCLUDE "x y" a¶` `$INCLUDE→z ;¬` -/
+    ` Hinfo "" \100¶` ` aAaA 2001:db8:0:0:0:0:ff:ffff¶` `$INCLUDE "x y" a¶` `$INCLUDE→z ;¬` -/
 def exFile : List PEntry :=
   [.origin [[(116, .raw)]] [32] [] [] false,
    .record ⟨.named (.abs [[(97, .raw), (46, .esc), (98, .raw)], [(10, .dec), (99, .raw)]]), some 5,
@@ -225,10 +227,11 @@ def exFile : List PEntry :=
    .record ⟨.same, none, none, true, .mnemonic [116, 120, 116] 16, .txt sQ [sU, sD], [[.blank false, .openParen]],
       [[.blank false], [.blank false], [.newline [] true, .blank false]], [.closeParen], [], false⟩,
    .record ⟨.same, none, none, true, .mnemonic [72, 105, 110, 102, 111] 13, .hinfo ⟨true, []⟩ sD, [], [], [], [], false⟩,
+   .record ⟨.same, none, none, true, .mnemonic [97, 65, 97, 65] 28, .aaaa [8193, 3512, 0, 0, 0, 0, 255, 65535], [], [], [], [], false⟩,
    .incl ⟨true, [(120, .raw), (32, .raw), (121, .raw)]⟩ (some nA) [32] [32] [] [] false,
    .incl ⟨false, [(122, .raw)]⟩ none [9] [] [32] [59] true]
 
-/-- the example file is well-formed and denotes eleven records and two include requests -/
+/-- the example file is well-formed and denotes twelve records and two include requests -/
 theorem exFile_ok :
     (∀ e ∈ exFile, WFEntry e) ∧
     denoteFile validB exFile (toSCtx {}) 1 =
@@ -244,8 +247,9 @@ theorem exFile_ok :
             .record ⟨18, [1, 97, 1, 116, 0], 9, 1, 1, [192, 0, 2, 1]⟩,
             .record ⟨19, [1, 97, 1, 116, 0], 9, 1, 16, [4, 97, 10, 98, 34, 3, 99, 59, 100, 1, 100]⟩,
             .record ⟨22, [1, 97, 1, 116, 0], 9, 1, 13, [0, 1, 100]⟩,
-            .incl 23 [120, 32, 121] (some [1, 97, 1, 116, 0]),
-            .incl 24 [122] (some [1, 116, 0])] := by
+            .record ⟨23, [1, 97, 1, 116, 0], 9, 1, 28, [32, 1, 13, 184, 0, 0, 0, 0, 0, 0, 0, 0, 0, 255, 255, 255]⟩,
+            .incl 24 [120, 32, 121] (some [1, 97, 1, 116, 0]),
+            .incl 25 [122] (some [1, 116, 0])] := by
   refine ⟨?_, by decide +kernel⟩
   have wfA : WFName nA := by unfold nA WFName; exact ⟨by decide, by simp [LabelsOK, labelOctets], by decide⟩
   have wfMail : WFName nMail := by
@@ -254,7 +258,7 @@ theorem exFile_ok :
     intro n h; cases h
   intro e he
   simp only [exFile, List.mem_cons, List.mem_nil_iff, or_false] at he
-  rcases he with rfl | rfl | rfl | rfl | rfl | rfl | rfl | rfl | rfl | rfl | rfl | rfl | rfl | rfl | rfl | rfl
+  rcases he with rfl | rfl | rfl | rfl | rfl | rfl | rfl | rfl | rfl | rfl | rfl | rfl | rfl | rfl | rfl | rfl | rfl
   · exact ⟨⟨by simp, by decide, by simp [LabelsOK, labelOctets], by decide⟩, by simp, by decide, by decide, .inl rfl⟩
   · refine ⟨?_, by decide, ?_,
       ⟨by simp [WFType], by decide, by decide, by decide⟩, by simp [WFRdata], gaps_ok_of_B _ (by decide)⟩
@@ -294,6 +298,8 @@ theorem exFile_ok :
   · exact ⟨noOwner, by decide, (by intro c hc; cases hc),
       ⟨mHinfo, by decide, by decide, by decide⟩,
       ⟨⟨by decide, by decide, by decide⟩, ⟨by decide, by decide, by decide⟩, by decide⟩, gaps_ok_of_B _ (by decide)⟩
+  · exact ⟨noOwner, by decide, (by intro c hc; cases hc),
+      ⟨mAaaa, by decide, by decide, by decide⟩, ⟨by decide, by decide⟩, gaps_ok_of_B _ (by decide)⟩
   · refine ⟨⟨by decide, by decide, by decide⟩, ?_, by simp, by decide, by decide, .inl rfl⟩
     intro n hn; cases hn; exact ⟨wfA, by simp, by decide⟩
   · exact ⟨⟨by decide, by decide, by decide⟩, (by intro n hn; cases hn), by simp, by decide, by decide,
@@ -313,14 +319,15 @@ example : parseAll (renderFile exFile) {} =
      .item (.record 18 ⟨[1, 97, 1, 116, 0], 9, 1, 1, [192, 0, 2, 1]⟩),
      .item (.record 19 ⟨[1, 97, 1, 116, 0], 9, 1, 16, [4, 97, 10, 98, 34, 3, 99, 59, 100, 1, 100]⟩),
      .item (.record 22 ⟨[1, 97, 1, 116, 0], 9, 1, 13, [0, 1, 100]⟩),
-     .item (.incl 23 [120, 32, 121] (some [1, 97, 1, 116, 0])),
-     .item (.incl 24 [122] (some [1, 116, 0]))] := by
+     .item (.record 23 ⟨[1, 97, 1, 116, 0], 9, 1, 28, [32, 1, 13, 184, 0, 0, 0, 0, 0, 0, 0, 0, 0, 255, 255, 255]⟩),
+     .item (.incl 24 [120, 32, 121] (some [1, 97, 1, 116, 0])),
+     .item (.incl 25 [122] (some [1, 116, 0]))] := by
   rw [C23_records_partial exFile exFile_ok.1 {} CtxWF_default _ exFile_ok.2]
   rfl
 
 /-- the same file, evaluated directly: the text is what it is meant to be and the parser yields
-    eleven records and two include requests -/
-example : (parseAll (renderFile exFile) {}).length = 13 := by decide +kernel
+    twelve records and two include requests -/
+example : (parseAll (renderFile exFile) {}).length = 14 := by decide +kernel
 
 /-- RDATA alone: ` ( 10 ;x<CRLF> a )` after the type field of an MX record, origin `t.` -/
 example : parseRdata { origin := some [1, 116, 0] } 1 15
